@@ -726,7 +726,7 @@ def expected_steps(msgs, pairs):
 
 def judge(res_obj, tag, sess, model, out):
     """Compare one driven session with the model's prediction; report through res_obj.  Returns True if clean."""
-    msgs, mode = sess["messages"], sess["mode"]
+    msgs, mode = sess["messages"], out.get("mode_used", sess["mode"])
     pairs, stop = model                     # prediction for msgs + shutdown + exit
     pairs_body = pairs[:-1]
     replay = {"kind": "input", "session": tag, "mode": mode, "caps": sess.get("caps", 0), "messages": msgs,
@@ -743,6 +743,9 @@ def judge(res_obj, tag, sess, model, out):
         k = out["died_at"]
         prefix = msgs if k < 0 else msgs[:k + 1]
         last = json.dumps(prefix[-1])[:300] if prefix else "(shutdown)"
+        if out.get("minimal"):
+            replay["minimised_from"] = len(prefix)
+            prefix = out["minimal"]
         res_obj.violation(
             "server process died / stopped answering (exit=%s) after message #%s %s; stderr: %s"
             % (out.get("exit"), k, last, (out.get("stderr") or out["why"]).strip().replace("\n", " | ")[-400:]),
@@ -867,7 +870,11 @@ def main(tier, replay=None):
     res = Result(PROP, tier, level="other")
     d = rundir(PROP)
     ws = make_workspace(d)
+    import time as _time
+    t0 = _time.time()
     proof_stage(res, PROP, thorough=(tier == "thorough"))
+    res.coverage["t_proof_s"] = round(_time.time() - t0, 1)
+    t0 = _time.time()
     ok, log, vbin = vhdl_ls_build()
     if not ok:
         res.violation("vhdl_ls build failed against the current /repo tree", {"kind": "build", "log": log[-3000:]},
@@ -887,7 +894,7 @@ def main(tier, replay=None):
         for k, c in enumerate(load_corpus()):
             sessions.append({"tag": "corpus:%s" % c.get("name", k), "messages": c["messages"], "mode": "step",
                              "caps": c.get("caps", 0)})
-        n_sessions, n_msgs = (2400, 40) if tier == "thorough" else (120, 40)
+        n_sessions, n_msgs = (2400, 40) if tier == "thorough" else (150, 40)
         for k in range(n_sessions):
             g = Gen(seed() * 1000003 + k)
             mode = "pipelined" if k % 4 == 3 else "step"
@@ -901,6 +908,8 @@ def main(tier, replay=None):
         res.violation("extracted model runner failed", {"kind": "build"}, no_failing_input=True)
         return res.finish()
 
+    res.coverage["t_build_s"] = round(_time.time() - t0, 1)
+    t0 = _time.time()
     # implementation runs, in parallel
     workers = min(14, max(2, (os.cpu_count() or 4) - 2))
     stats = {"requests": 0, "notifications": 0, "client_responses": 0, "invalid_params": 0, "method_not_found": 0,
@@ -911,19 +920,45 @@ def main(tier, replay=None):
     def work(i):
         s = sessions[i]
         out = drive(vbin, ws, s["messages"], s["mode"], s.get("caps", 0))
-        if s["mode"] != "step" and out["died_at"] is not None:
+        if s["mode"] != "step" and not out["init_failed"] and (
+                out["died_at"] is not None or out["responses"] != models[i][0][:-1]):
             # localise: the same session message by message
             out2 = drive(vbin, ws, s["messages"], "step", s.get("caps", 0))
-            if out2["died_at"] is not None:
+            if out2["died_at"] is not None or out2["responses"] != models[i][0][:-1]:
                 out = out2
+                out["mode_used"] = "step"
+        k = out["died_at"]
+        if k is not None and 0 < k < len(s["messages"]):
+            # minimise: does the last message alone kill a fresh server?
+            out3 = drive(vbin, ws, [s["messages"][k]], "step", s.get("caps", 0))
+            if out3["died_at"] == 0:
+                out["minimal"] = [s["messages"][k]]
         return i, out
 
     clean = 0
+    suppressed = 0
+    per_class = {}
+
+    class Sink:                 # judge() reports here; at most 3 recorded violations per class, 10 in total
+        def __init__(self):
+            self.items = []
+
+        def violation(self, what, replay_obj, no_failing_input=False):
+            self.items.append((what, replay_obj, no_failing_input))
+
     with concurrent.futures.ThreadPoolExecutor(max_workers=workers) as ex:
         for i, out in ex.map(work, range(len(sessions))):
             s = sessions[i]
-            if judge(res, s["tag"], s, models[i], out):
+            sink = Sink()
+            if judge(sink, s["tag"], s, models[i], out):
                 clean += 1
+            for what, replay_obj, nf in sink.items:
+                cls = re.split(r"[:(]", what)[0][:60] + ("/" + what.split("exit status")[1][:12] if "exit status" in what else "")
+                if per_class.get(cls, 0) < 3 and len(res.violations) < 10:
+                    per_class[cls] = per_class.get(cls, 0) + 1
+                    res.violation(what, replay_obj, no_failing_input=nf)
+                else:
+                    suppressed += 1
             pairs = models[i][0]
             stats["ok_with_nonempty_result"] += out.get("nonnull_ok", 0)
             stats["sessions_" + ("step" if s["mode"] == "step" else "pipelined")] += 1
@@ -935,15 +970,17 @@ def main(tier, replay=None):
             for _i, v in pairs[:-1]:
                 stats[{"ok": "ok", "-32602": "invalid_params", "-32601": "method_not_found"}[v]] += 1
             res.count_case(lines[i], nontrivial(s["messages"]))
-            if i % 17 == 0:
+            if i % 37 == 0:
                 res.add_sample({"session": s["tag"], "mode": s["mode"], "first_messages": s["messages"][:3],
                                 "predicted_skeleton": pairs[:6]})
 
+    res.coverage["t_sessions_s"] = round(_time.time() - t0, 1)
     step = max(1, len(sessions) // 12)
     coq_cross_check(res, [(sessions[i]["messages"] + SHUTDOWN_TAIL, models[i]) for i in range(0, len(sessions), step)])
 
     res.coverage["sessions"] = len(sessions)
     res.coverage["sessions_clean"] = clean
+    res.coverage["failing_sessions_not_recorded"] = suppressed
     res.coverage["traffic"] = stats
     res.coverage["exhaustive"] = False
     res.coverage["explanation"] = (
